@@ -25,6 +25,9 @@ type Solver struct {
 	cmd       *exec.Cmd
 	in        io.WriteCloser
 	out       *bufio.Reader
+	lines     chan string
+	dead      bool
+	Kills     int
 	TimeoutMs int
 	Queries   int
 	Time      time.Duration
@@ -58,7 +61,19 @@ func New(kind string, timeoutMs int) (*Solver, error) {
 	if err := cmd.Start(); err != nil {
 		return nil, err
 	}
-	s := &Solver{Name: kind, cmd: cmd, in: in, out: bufio.NewReaderSize(out, 1<<16), TimeoutMs: timeoutMs}
+	s := &Solver{Name: kind, cmd: cmd, in: in, out: bufio.NewReaderSize(out, 1<<16), TimeoutMs: timeoutMs, lines: make(chan string, 1024)}
+	go func() {
+		for {
+			line, err := s.out.ReadString('\n')
+			if line != "" {
+				s.lines <- line
+			}
+			if err != nil {
+				close(s.lines)
+				return
+			}
+		}
+	}()
 	s.prelude()
 	return s, nil
 }
@@ -72,7 +87,13 @@ func (s *Solver) prelude() {
 	}
 }
 
+// Dead reports that the solver process was killed after ignoring its timeout.
+func (s *Solver) Dead() bool { return s.dead }
+
 func (s *Solver) Send(line string) {
+	if s.dead {
+		return
+	}
 	if s.Log != nil {
 		fmt.Fprintln(s.Log, line)
 	}
@@ -92,21 +113,40 @@ func (s *Solver) Pop()  { s.Send("(pop 1)") }
 func (s *Solver) Assert(expr string) { s.Send("(assert " + expr + ")") }
 
 // sync: send an echo marker and read until it; returns the lines before it.
+// If the solver does not answer within the hard limit it is killed (z3 can
+// ignore :timeout inside nonlinear arithmetic); the result is then an error.
 func (s *Solver) readUntilMarker() []string {
+	if s.dead {
+		return []string{"(error \"solver dead\")"}
+	}
 	s.Send(`(echo "@@done")`)
 	var lines []string
+	hard := time.Duration(2*s.TimeoutMs+10000) * time.Millisecond
+	timer := time.NewTimer(hard)
+	defer timer.Stop()
 	for {
-		line, err := s.out.ReadString('\n')
+		var line string
+		var ok bool
+		select {
+		case line, ok = <-s.lines:
+		case <-timer.C:
+			s.dead = true
+			s.Kills++
+			s.cmd.Process.Kill()
+			lines = append(lines, "(error \"solver killed after hard timeout\")")
+			return lines
+		}
+		if !ok {
+			s.dead = true
+			lines = append(lines, "(error \"solver died\")")
+			break
+		}
 		line = strings.TrimSpace(line)
 		if line == "@@done" || line == `"@@done"` {
 			break
 		}
 		if line != "" {
 			lines = append(lines, line)
-		}
-		if err != nil {
-			lines = append(lines, "(error \"solver died: "+err.Error()+"\")")
-			break
 		}
 	}
 	if s.Log != nil {
@@ -180,6 +220,11 @@ func (s *Solver) GetValues(exprs []string) ([]string, error) {
 }
 
 func (s *Solver) Close() {
+	if s.dead {
+		s.in.Close()
+		go s.cmd.Wait()
+		return
+	}
 	s.Send("(exit)")
 	s.in.Close()
 	done := make(chan struct{})
